@@ -220,8 +220,19 @@ def _check_config(case):
         elif what == "to-control-features":
             must_raise = param is not None
             cf, _ = K.table([[("u", "v")[i % 2] for i in range(d["n"])]], param or "list", rng, names=["cA"])
-            ThresholdOptimizer(estimator=K.ColScore(), predict_method="predict", grid_size=20).fit(o["X"], o["y"], sensitive_features=o["sf"],
-                                                                                                  control_features=cf if param else None)
+            for prefit in (False, True):          # the rejection must not depend on whether the base estimator is fitted by ThresholdOptimizer or handed in fitted
+                est = K.ColScore().fit(None) if prefit else K.ColScore()
+                if prefit and not must_raise:
+                    continue
+                try:
+                    ThresholdOptimizer(estimator=est, prefit=prefit, predict_method="predict", grid_size=20).fit(o["X"], o["y"], sensitive_features=o["sf"],
+                                                                                                                control_features=cf if param else None)
+                except Exception:
+                    if prefit:
+                        raise
+                    continue          # rejected with prefit=False: now the prefit=True configuration must be rejected as well
+                if must_raise:
+                    return          # accepted although control features were given
         elif what == "to-estimator-none":
             ThresholdOptimizer(estimator=None, predict_method="predict").fit(o["X"], o["y"], sensitive_features=o["sf"])
         elif what == "eg-objective-type":
